@@ -342,6 +342,10 @@ func (o *oracleC10) after(c *stepCtx) *ViolationRec {
 	if c.shRes == nil || c.res.Skipped {
 		return nil
 	}
+	if c.shRes.Timeout {
+		o.cnt["shadow_timeouts"]++
+		return &ViolationRec{Class: "infra-shadow-timeout", Oracle: "shadow-execution", Msg: "the reference execution on fresh memory exceeded its step budget\n  " + opDesc(c), Sig: "infra"}
+	}
 	op := c.op
 	o.cnt["shadow_steps"]++
 	live, sh := c.res, c.shRes
